@@ -29,11 +29,10 @@ type scnParams struct {
 	BranchLen int    `json:"branchlen"` // 1 or 2
 }
 
-// fop: one operation on the flat key space, by dictionary ids
-type fop struct {
-	Del bool
-	U   int
-	V   int
+// kv: one entry of the flat key space, by dictionary ids (key id, value id)
+type kv struct {
+	U int
+	V int
 }
 
 type blk struct {
@@ -41,7 +40,10 @@ type blk struct {
 	ID     int
 	Parent int
 	Num    uint64
-	Eff    []fop
+	// effect on the flat key space, from the block batch of the uncrashed append: entries created and
+	// entries deleted (with the value they had: what the undo record keeps)
+	Created []kv
+	Spent   []kv
 }
 
 type action struct {
@@ -86,26 +88,37 @@ func (s *scenario) vid(v string) int {
 	return id
 }
 
-// effectsOf extracts the flat-key-space operations of the block batch (the batch that
-// carries the processed-state marker) in issue order.
-func (s *scenario) effectsOf(ops []topOp) ([]fop, error) {
+// effectsOf extracts the flat-key-space operations of the block batch (the batch that carries
+// the processed-state marker): created entries and deleted entries with the value they had
+// (from the pending view of the batch, else from the flat space before the append).
+func (s *scenario) effectsOf(ops []topOp, pre map[string]string) (created, spent []kv, err error) {
 	idx := effectsBatchIndex(ops)
 	if idx < 0 {
-		return nil, fmt.Errorf("no block batch (processed-state marker) in the write log")
+		return nil, nil, fmt.Errorf("no block batch (processed-state marker) in the write log")
 	}
-	var out []fop
+	pending := map[string]string{}
 	for _, x := range ops[idx].Ops {
 		c := classOf(x.K)
 		if c != kUtxo && c != kLockup {
 			continue
 		}
+		k := string(x.K)
 		if x.Del {
-			out = append(out, fop{Del: true, U: s.kid(string(x.K))})
+			v, ok := pending[k]
+			if !ok {
+				v, ok = pre[k]
+			}
+			if !ok {
+				return nil, nil, fmt.Errorf("block batch deletes a flat key that does not exist")
+			}
+			spent = append(spent, kv{s.kid(k), s.vid(v)})
+			delete(pending, k)
 		} else {
-			out = append(out, fop{U: s.kid(string(x.K)), V: s.vid(string(x.V))})
+			created = append(created, kv{s.kid(k), s.vid(string(x.V))})
+			pending[k] = string(x.V)
 		}
 	}
-	return out, nil
+	return created, spent, nil
 }
 
 func effectsBatchIndex(ops []topOp) int {
@@ -236,7 +249,8 @@ func buildScenario(p scnParams) (s *scenario, err error) {
 	b.w1, b.w2, b.w3 = grind(r), grind(r), grind(r)
 	b.origin = common.BytesToHash(r.Bytes(32))
 
-	db := newLogDB(rawdb.NewMemoryDatabase(logger))
+	db := image{}.open() // empty database on the selected backend
+	defer db.release()
 	z, err := openZone(db, 1)
 	if err != nil {
 		return nil, err
@@ -281,18 +295,18 @@ func buildScenario(p scnParams) (s *scenario, err error) {
 		if err != nil {
 			return nil, fmt.Errorf("append block %d: %v", i, err)
 		}
-		eff, err := s.effectsOf(ops)
+		cr, sp, err := s.effectsOf(ops, pre.flat())
 		if err != nil {
 			return nil, err
 		}
-		s.Blocks[i] = &blk{Wo: wo, ID: i, Parent: i - 1, Num: num(wo), Eff: eff}
+		s.Blocks[i] = &blk{Wo: wo, ID: i, Parent: i - 1, Num: num(wo), Created: cr, Spent: sp}
 		s.RefFlat[i] = snapshot(db).flat()
 		sid := 100 + i
-		seff, err := s.effectsOf(sibOps)
+		scr, ssp, err := s.effectsOf(sibOps, pre.flat())
 		if err != nil {
 			return nil, err
 		}
-		s.Blocks[sid] = &blk{Wo: sib, ID: sid, Parent: i - 1, Num: num(sib), Eff: seff}
+		s.Blocks[sid] = &blk{Wo: sib, ID: sid, Parent: i - 1, Num: num(sib), Created: scr, Spent: ssp}
 		s.RefFlat[sid] = sibFlat
 		s.Actions = append(s.Actions, &action{Kind: "append", Target: i, Base: append([]int{}, base...), Pre: pre, Ops: ops,
 			Allowed: []int{i - 1, i}, Conts: []int{i, sid}})
@@ -336,11 +350,11 @@ func buildScenario(p scnParams) (s *scenario, err error) {
 		if err != nil {
 			return nil, fmt.Errorf("branch block: %v", err)
 		}
-		eff2, err := s.effectsOf(ops2)
+		cr2, sp2, err := s.effectsOf(ops2, s.RefFlat[100+f+1])
 		if err != nil {
 			return nil, err
 		}
-		s.Blocks[200] = &blk{Wo: wo2, ID: 200, Parent: 100 + f + 1, Num: num(wo2), Eff: eff2}
+		s.Blocks[200] = &blk{Wo: wo2, ID: 200, Parent: 100 + f + 1, Num: num(wo2), Created: cr2, Spent: sp2}
 		s.RefFlat[200] = flat2
 		branch = append(branch, 200)
 	}
@@ -375,7 +389,8 @@ func buildScenario(p scnParams) (s *scenario, err error) {
 // buildSibling assembles, on a copy of the image, a different valid child of the image's head
 // (other coinbase, the alternative spend) with a second node and appends it there.
 func buildSibling(pre image, alt *types.Transaction) (*types.WorkObject, []topOp, map[string]string, error) {
-	db := newLogDB(pre.open())
+	db := pre.open()
+	defer db.release()
 	z, err := openZone(db, 2)
 	if err != nil {
 		return nil, nil, nil, err
@@ -400,7 +415,8 @@ func buildSibling(pre image, alt *types.Transaction) (*types.WorkObject, []topOp
 
 // extendBranch: on a copy of the image append `first` and assemble + append one more block.
 func extendBranch(pre image, first *types.WorkObject, tx *types.Transaction) (*types.WorkObject, []topOp, map[string]string, error) {
-	db := newLogDB(pre.open())
+	db := pre.open()
+	defer db.release()
 	z, err := openZone(db, 3)
 	if err != nil {
 		return nil, nil, nil, err
